@@ -304,6 +304,40 @@ def run(ctx):
             whole = abs(hop * real_sr - round(hop * real_sr)) < 1e-9
             ctx.case(("spectrogram", kind, "whole_hop" if whole else "fractional_hop"), dict(base, kind="spectrogram", window=window, hop=hop), nontrivial=not whole)
             judge_spectrogram(ctx, wav, window, hop, dict(base, kind="spectrogram", window=window, hop=hop))
+        # the recording array has now been fed to resample / compute_spectrogram several times: it is still an
+        # array "produced by load_recording" and must still satisfy the axis contract (no aliasing of its attrs)
+        check_axis(ctx, "time", wav.time.data, wav.time.attrs.get("step"), 0.0, dict(base, kind="recording_after_use"), "load_recording")
+        if wav.time.attrs.get("step") is not None and abs(wav.time.attrs["step"] - 1 / real_sr) > 1e-15:
+            ctx.violate("axis:step_value", "axis:step_value:load_recording_after_use", observed=wav.time.attrs.get("step"), expected=1 / real_sr, spec=dict(base, kind="recording_after_use"))
+        # a waveform the user assembled by hand (no step attribute: it is estimated from the coordinates), used
+        # AFTER the calls above: nothing they left behind may leak into it
+        if fi % 3 == 0:
+            import xarray as xr
+
+            from soundevent.arrays import dimensions as DM
+
+            usr_sr = rng.choice([8000, 16000, 10000])
+            n_u = usr_sr // 2
+            tt = 2.0 + np.arange(n_u) / usr_sr
+            how = rng.choice(["create_dim_no_step", "plain_coords", "create_dim_estimate"])
+            if how == "plain_coords":
+                tcoord = tt
+            else:
+                tcoord = DM.create_time_dim_from_array(tt, estimate_step=(how == "create_dim_estimate"))
+            uw = xr.DataArray(np.random.default_rng(seed).normal(size=(n_u, 1)), dims=("time", "channel"), coords={"time": tcoord, "channel": [0]})
+            uspec = dict(base, kind="user_waveform", how=how, usr_sr=usr_sr)
+            ctx.case(("user_waveform", how), uspec)
+            from soundevent.audio import operations as AO
+            from soundevent.audio import spectrograms as SP
+
+            try:
+                # judged by the ambient axis-contract postconditions on resample / compute_spectrogram
+                AO.resample(uw, usr_sr // 2)
+                ctx.mon("resample")
+                SP.compute_spectrogram(uw, window_size=256 / usr_sr, hop_size=128 / usr_sr)
+                ctx.mon("compute_spectrogram")
+            except Exception as e:
+                ctx.violate_exc("user_waveform:raises", f"user_waveform:raises:{type(e).__name__}", e, spec=uspec)
         # spectrogram of a clip (source start != 0)
         if cw is not None and cw.sizes["time"] > 2048:
             ctx.case(("spectrogram", "of_clip"), dict(base, kind="spectrogram_of_clip"))
